@@ -59,6 +59,37 @@ def violations_with(diff_path, prop, cfg="default"):
         shutil.rmtree(d, ignore_errors=True)
 
 
+WORKERS = int(os.environ.get("PCV_SELFTEST_WORKERS", "6"))
+
+
+def _worker_init(q):
+    os.environ["PCV_WORKER"] = str(q.get())
+
+
+def _worker_run(args):
+    mid, path, prop, cfg = args
+    try:
+        return mid, violations_with(path, prop, cfg)
+    except BaseException as e:      # a worker must always report back
+        return mid, (None, "self-test worker failed: %r" % (e,))
+
+
+def _run_parallel(todo, prop):
+    """{mutant id: (violations or None, error)}; mutants are independent, so they are analysed by a small pool of
+    worker processes, each with its own cargo target directory."""
+    jobs = [(m["id"], os.path.join(MUT_DIR, m["file"]), prop, m.get("cfg", "default")) for m in todo]
+    n = max(1, min(WORKERS, len(jobs)))
+    if n == 1:
+        return dict(_worker_run(j) for j in jobs)
+    import multiprocessing as mp
+    ctx = mp.get_context("fork")
+    q = ctx.Queue()
+    for k in range(n):
+        q.put(k)
+    with ctx.Pool(n, initializer=_worker_init, initargs=(q,)) as pool:
+        return dict(pool.map(_worker_run, jobs, chunksize=1))
+
+
 def selftest(prop, baseline_violations):
     """run every mutant registered for `prop`; a mutant is caught if it adds one of its expected keys to the
     violations of the unmodified tree; a refactoring fixture must add nothing."""
@@ -69,10 +100,10 @@ def selftest(prop, baseline_violations):
         idx = json.load(f)
     base = set(baseline_violations)
     res = []
-    for m in idx:
-        if prop not in m["properties"]:
-            continue
-        v, err = violations_with(os.path.join(MUT_DIR, m["file"]), prop, m.get("cfg", "default"))
+    todo = [m for m in idx if prop in m["properties"]]
+    outcomes = _run_parallel(todo, prop)
+    for m in todo:
+        v, err = outcomes[m["id"]]
         if v is None:
             res.append(dict(id=m["id"], status="skipped", reason=err))
             continue
